@@ -366,3 +366,74 @@ func VH_cyclic(which int) {
 		verifAssert("missing-property-on-a-container-is-an-error-not-a-crash", utils.HadRuntimeError)
 	}
 }
+
+// VH_arrayBig (C11): one step of এড / রিমুভ from an arbitrary valid array representation — n
+// elements in storage with `spare` unused slots behind them (what an array literal, or an
+// earlier এড, leaves) — for lengths far beyond the histories of VH_array. Two এড calls on the same
+// array and one রিমুভ (first, middle or last index), then a write to the argument: every result holds
+// exactly the documented elements, then and after the write, and the argument is unchanged.
+func VH_arrayBig(n int, spare int) {
+	a := make([]interface{}, n, n+spare)
+	for i := 0; i < n; i++ {
+		a[i] = float64(i)
+	}
+	x1, x2, z := verifNondetFloat(), verifNondetFloat(), verifNondetFloat()
+	in := NewInterpreter()
+	utils.HadRuntimeError = false
+	bv, err1 := NativeAppendFn{}.Call(in, []interface{}{a, x1})
+	cv, err2 := NativeAppendFn{}.Call(in, []interface{}{a, x2, z})
+	verifAssert("append-succeeds", err1 == nil && err2 == nil)
+	b, okb := bv.([]interface{})
+	c, okc := cv.([]interface{})
+	verifAssert("append-returns-an-array", okb && okc)
+	if !(okb && okc) {
+		return
+	}
+	verifAssert("append-length", len(b) == n+1 && len(c) == n+2 && len(a) == n)
+	if !(len(b) == n+1 && len(c) == n+2) {
+		return
+	}
+	verifAssert("append-holds-the-new-elements", hvIdentical(b[n], x1) && hvIdentical(c[n], x2) && hvIdentical(c[n+1], z))
+	var d []interface{}
+	k := 0
+	if n > 0 {
+		k = []int{0, n / 2, n - 1}[verifChoice(3)] // arbitrary indexes are VH_array's; here the ends and the middle
+		dv, err3 := NativeRemoveFn{}.Call(in, []interface{}{a, float64(k)})
+		var okd bool
+		d, okd = dv.([]interface{})
+		verifAssert("remove-succeeds", err3 == nil && okd && len(d) == n-1 && len(a) == n)
+		if !(okd && len(d) == n-1) {
+			return
+		}
+	}
+	// positions that matter: both ends, the removal point and its neighbours
+	probe := []int{0, n - 1, n / 2}
+	if n > 0 {
+		a[0] = z
+		a[n-1] = z
+		b[n/2] = z
+	}
+	for _, p := range probe {
+		if p < 0 || p >= n {
+			continue
+		}
+		want := interface{}(float64(p))
+		if p != n/2 {
+			verifAssert("append-result-unaffected-by-later-writes", hvIdentical(b[p], want))
+		}
+		verifAssert("append-result-unaffected-by-later-writes", hvIdentical(c[p], want))
+	}
+	if n > 0 {
+		verifAssert("append-result-keeps-its-new-element", hvIdentical(b[n], x1) && hvIdentical(c[n], x2))
+		for _, p := range []int{0, n - 2, n / 2} {
+			if p < 0 || p >= n-1 {
+				continue
+			}
+			src := p
+			if p >= k {
+				src = p + 1
+			}
+			verifAssert("remove-result-holds-the-other-elements-in-order", hvIdentical(d[p], float64(src)))
+		}
+	}
+}
